@@ -1987,3 +1987,154 @@ enum ParsedPatFields {
 
 // a single subpattern, optionally prefixed with a field name: `field = pat`
 type ParsedPatField = (Option<Rc<Identifier>>, Rc<Pat>);
+
+// ---- verification hooks (read-only, additive; compiled only with `--cfg abra_verif`) ----
+
+/// Tokens of `src` as (tag, payload, lo, hi) plus the lexer's diagnostics as (kind, lo, hi).
+#[cfg(abra_verif)]
+#[allow(clippy::type_complexity)]
+pub fn verif_lex(src: &str) -> (Vec<(String, String, usize, usize)>, Vec<(String, usize, usize)>) {
+    let mut ctx = StaticsContext::new(crate::MockFileProvider::new(Default::default()));
+    let file_id = ctx
+        .file_db
+        .add(crate::FileData::new_simple("verif.abra".into(), src.to_string()));
+    let tokens = tokenize_file(&mut ctx, file_id);
+    let toks = tokens
+        .iter()
+        .map(|t| {
+            let tag: &'static str = t.tag().into();
+            let payload = match &t.kind {
+                TokenKind::IntLit(s)
+                | TokenKind::FloatLit(s)
+                | TokenKind::StringLit(s)
+                | TokenKind::Ident(s)
+                | TokenKind::PolyIdent(s) => s.clone(),
+                _ => String::new(),
+            };
+            (tag.to_string(), payload, t.span.lo, t.span.hi)
+        })
+        .collect();
+    (toks, verif_errors(&ctx.errors))
+}
+
+#[cfg(abra_verif)]
+fn verif_errors(errors: &[Error]) -> Vec<(String, usize, usize)> {
+    errors
+        .iter()
+        .map(|e| match e {
+            Error::UnrecognizedToken(_, i) => ("UnrecognizedToken".to_string(), *i, *i + 1),
+            Error::UnrecognizedEscapeSequence(_, s) => {
+                ("UnrecognizedEscapeSequence".to_string(), s.lo, s.hi)
+            }
+            Error::UnexpectedToken(_, _, l) => ("UnexpectedToken".to_string(), l.lo, l.hi),
+            Error::ProblematicToken(_, l) => ("ProblematicToken".to_string(), l.lo, l.hi),
+            Error::EmptyParentheses(l) => ("EmptyParentheses".to_string(), l.lo, l.hi),
+            _ => ("Other".to_string(), 0, 0),
+        })
+        .collect()
+}
+
+/// Parse `src` as one expression (`Parser::parse_expr`) and render the tree as an S-expression.
+/// Answer: `ok <sexpr>` (all tokens consumed), `partial <tokens consumed> <sexpr>` (tokens remain),
+/// `err <kind of the first diagnostic>` (lexer, then recorded parser errors, then the returned error).
+#[cfg(abra_verif)]
+pub fn verif_parse_expr(src: &str) -> String {
+    let mut ctx = StaticsContext::new(crate::MockFileProvider::new(Default::default()));
+    let file_id = ctx
+        .file_db
+        .add(crate::FileData::new_simple("verif.abra".into(), src.to_string()));
+    let tokens = tokenize_file(&mut ctx, file_id);
+    let mut parser = Parser::new(tokens, file_id, src.len());
+    let res = parser.parse_expr();
+    let mut errors = ctx.errors.clone();
+    errors.extend(parser.errors.iter().cloned());
+    if let Err(e) = &res {
+        errors.push((**e).clone());
+    }
+    if let Some((kind, _, _)) = verif_errors(&errors).first() {
+        return format!("err {kind}");
+    }
+    let expr = res.unwrap();
+    let consumed = parser.index;
+    parser.skip_newlines();
+    if parser.current_token().tag() == TokenTag::Eof {
+        format!("ok {}", verif_sexpr(&expr))
+    } else {
+        format!("partial {} {}", consumed, verif_sexpr(&expr))
+    }
+}
+
+#[cfg(abra_verif)]
+fn verif_sexpr(e: &Expr) -> String {
+    fn hex(s: &str) -> String {
+        s.bytes().map(|b| format!("{b:02x}")).collect()
+    }
+    fn list(head: &str, es: &[Rc<Expr>]) -> String {
+        let mut s = format!("({head}");
+        for e in es {
+            s.push(' ');
+            s.push_str(&verif_sexpr(e));
+        }
+        s.push(')');
+        s
+    }
+    match &*e.kind {
+        ExprKind::Variable(s) => s.clone(),
+        ExprKind::Nil => "nil".into(),
+        // a negative literal only arises from `-` followed by a literal
+        ExprKind::Int(n) if *n < 0 => format!("(neg {})", n.unsigned_abs()),
+        ExprKind::Int(n) => format!("{n}"),
+        ExprKind::Float(s) => match s.strip_prefix('-') {
+            Some(rest) => format!("(neg f:{rest})"),
+            None => format!("f:{s}"),
+        },
+        ExprKind::Bool(b) => format!("{b}"),
+        ExprKind::Str(s) => format!("s:{}", hex(s)),
+        ExprKind::Array(es) => list("array", es),
+        ExprKind::Tuple(es) => list("tuple", es),
+        ExprKind::Unop(PrefixOp::Minus, x) => format!("(neg {})", verif_sexpr(x)),
+        ExprKind::Unop(PrefixOp::Not, x) => format!("(not {})", verif_sexpr(x)),
+        ExprKind::BinOp(l, op, r) => {
+            let name = match op {
+                BinaryOperator::And => "and",
+                BinaryOperator::Or => "or",
+                BinaryOperator::Equal => "eq",
+                BinaryOperator::NotEqual => "ne",
+                BinaryOperator::Format => "fmt",
+                BinaryOperator::LessThan => "lt",
+                BinaryOperator::LessThanOrEqual => "le",
+                BinaryOperator::GreaterThan => "gt",
+                BinaryOperator::GreaterThanOrEqual => "ge",
+                BinaryOperator::Add => "add",
+                BinaryOperator::Subtract => "sub",
+                BinaryOperator::Multiply => "mul",
+                BinaryOperator::Divide => "div",
+                BinaryOperator::Mod => "mod",
+                BinaryOperator::Pow => "pow",
+            };
+            format!("({name} {} {})", verif_sexpr(l), verif_sexpr(r))
+        }
+        ExprKind::FuncCall(f, args) => {
+            let mut s = format!("(call {}", verif_sexpr(f));
+            for a in args {
+                s.push(' ');
+                match &a.name {
+                    Some(n) => s.push_str(&format!("(named {} {})", n.v, verif_sexpr(&a.val))),
+                    None => s.push_str(&verif_sexpr(&a.val)),
+                }
+            }
+            s.push(')');
+            s
+        }
+        ExprKind::MemberAccess(x, id) => format!("(member {} {})", verif_sexpr(x), id.v),
+        ExprKind::MemberAccessLeadingDot(id) => format!("(dot {})", id.v),
+        ExprKind::IndexAccess(x, i) => format!("(index {} {})", verif_sexpr(x), verif_sexpr(i)),
+        ExprKind::Unwrap(x) => format!("(unwrap {})", verif_sexpr(x)),
+        ExprKind::Try(x) => format!("(try {})", verif_sexpr(x)),
+        ExprKind::AnonymousFunction(..) => "(other:lambda)".into(),
+        ExprKind::IfElse(..) => "(other:if)".into(),
+        ExprKind::Match(..) => "(other:match)".into(),
+        ExprKind::Block(..) => "(other:block)".into(),
+        ExprKind::TaskBlock(..) => "(other:task)".into(),
+    }
+}
